@@ -1658,8 +1658,10 @@ class PCE500Emulator:
             self.keyboard.load_state(keyboard_state)
 
         reg_values = _unpack_register_bytes(registers_blob)
+        # Python bundles key scratch registers by index ("4"); Rust bundles by name ("TEMP4").
         temps = {
-            int(key): int(value) for key, value in (metadata.get("temps") or {}).items()
+            int(str(key).upper().removeprefix("TEMP")): int(value)
+            for key, value in (metadata.get("temps") or {}).items()
         }
         snapshot = CPURegistersSnapshot(
             pc=reg_values["pc"],
@@ -1744,7 +1746,10 @@ class PCE500Emulator:
         self._irq_pending = bool(interrupts.get("pending", False))
         self._in_interrupt = bool(interrupts.get("in_interrupt", False))
         source_name = interrupts.get("source")
-        self._irq_source = IRQSource[source_name] if source_name else None
+        # Rust bundles may name sources Python has no enum member for (e.g. "IR" for a software interrupt).
+        self._irq_source = (
+            IRQSource[source_name] if source_name in IRQSource.__members__ else None
+        )
         self._interrupt_stack = list(interrupts.get("stack", []))
         self._next_interrupt_id = int(interrupts.get("next_id", 1))
         irq_counts = interrupts.get("irq_counts")
